@@ -1,9 +1,11 @@
 use crate::engine::Property;
 
+pub mod c12;
+pub mod c13;
 pub mod c14;
 
 pub fn all() -> Vec<Box<dyn Property>> {
-    vec![Box::new(c14::C14)]
+    vec![Box::new(c12::C12), Box::new(c13::C13), Box::new(c14::C14)]
 }
 
 pub fn by_id(id: &str) -> Option<Box<dyn Property>> {
